@@ -272,12 +272,29 @@ theorem unpad_pad (k : Nat) (hk : 0 < k) (hk2 : k < 256) (b : Bytes) : unpad k (
     have : ¬ (k - b.length % k = 0) := by omega
     simp [this]
   unfold unpad
-  rw [if_neg (by simp [hmod]), hlast]
+  rw [if_neg (by rw [hmod, hl]; omega), hlast]
   simp only [hm]
   rw [if_neg (by omega), hl]
   have e1 : b.length + (k - b.length % k) - (k - b.length % k) = b.length := by omega
   rw [e1]
   simp [pad]
+
+/-- `unpadBuffer` (repaired) returns for every buffer and every block size. -/
+theorem unpad_ne_panic (k : Nat) (b : Bytes) : unpad k b ≠ .panic := by
+  unfold unpad
+  split
+  · simp
+  · rename_i h
+    cases hb : b.getLast? with
+    | none =>
+      exfalso
+      have : b = [] := List.getLast?_eq_none_iff.mp hb
+      simp [this] at h
+    | some last =>
+      simp only
+      split
+      · simp
+      · split <;> simp
 
 /-! ## CBC-HMAC tag input -/
 
